@@ -102,6 +102,7 @@ static void pre_mutation(const char *p) {
 static void post_mutation(const char *p, int ok) {
     if (!armed || mode != 1 || !in_root(p)) return;
     if (ok) effects++;
+    if (getenv("CACACHE_SHIM_DEBUG")) fprintf(stderr, "shim: effect %ld ok=%d %s\n", effects, ok, p);
 }
 
 /* fault mode: should this call of class cls on path p fail?  returns errno or 0 */
